@@ -71,6 +71,48 @@ func satRuns(ev []event, rate uint64, burst uint32) [][2]int {
 	return out
 }
 
+// alignedRuns finds the maximal trains of >= 3 arrivals of one size s at one gap g > 0 that keep a
+// packet "always waiting" although s may be as large as the bucket - the case satPair cannot admit,
+// because after a drop of a bucket-sized packet any further waiting might overflow the bucket:
+//
+//	rate % 8 == 0,  e = r*g/1e9 a whole number of bytes >= 1,  e | s,  e | bucket,  s <= bucket.
+//
+// For such a train an exact bucket, whatever its level at the start, loses fewer than e tokens in
+// total: the first time it reaches the cap it is cut to `bucket` (a multiple of e, loss < e); from then
+// on every level is a multiple of e, after a drop it is <= s-e and after an admission <= bucket-s, so the
+// next e tokens always fit (e <= s <= bucket).  Hence admitted >= r*W - bucket - e >= r*W - burst - 65535
+// in every window of the train: clause 2 is a demand any correct limiter meets.
+func alignedRuns(ev []event, rate uint64, bucket uint32) [][2]int {
+	if rate == 0 || rate%8 != 0 {
+		return nil
+	}
+	r := rate / 8
+	var out [][2]int
+	for a := 0; a+2 < len(ev); {
+		sz, g := ev[a].Size, ev[a+1].T-ev[a].T
+		b := a + 1
+		for b < len(ev) && ev[b].Size == sz && ev[b].T-ev[b-1].T == g {
+			b++
+		}
+		// ev[a:b] is a maximal constant train (b-a >= 1)
+		if b-a >= 3 && g > 0 && sz <= bucket {
+			hi, lo := bits.Mul64(r, g)
+			if hi < 1_000_000_000 {
+				e, rem := bits.Div64(hi, lo, 1_000_000_000)
+				if rem == 0 && e >= 1 && uint64(sz)%e == 0 && uint64(bucket)%e == 0 {
+					out = append(out, [2]int{a, b})
+				}
+			}
+		}
+		if b-a >= 2 {
+			a = b - 1 // the next train may start with this train's last arrival
+		} else {
+			a = b
+		}
+	}
+	return out
+}
+
 // genSeq draws a whole arrival sequence together with its contract.  minSize is 1 for the helper
 // layer and 34 for frames (Ethernet+IPv4 header).  zeroOK allows the rate-0 class.
 func genSeq(rt *rapid.T, minSize uint32, zeroOK bool) *seqSpec {
